@@ -1630,9 +1630,9 @@ def sem_stage(ctx):
             vs = gen_names(rng)
         else:
             vs = ["a", "b", "c", "d"][:rng.randint(1, 4)]
-        c = gen_nat_com(rng, rng.randint(0, 4), vs, rich)
+        c = to_printable_shape(gen_nat_com(rng, rng.randint(0, 4), vs, rich))     # the trees parser.py returns: `;` right-nested, a conditional last
         if rng.random() < 0.04:      # a parameter (capital letters are HOL variables, not program variables)
-            c = ("seq", c, ("assign", vs[0], ("bin", "add", ("var", vs[0]), ("var", rng.choice(["A", "B", "AB"])))))
+            c = to_printable_shape(("seq", ("assign", vs[0], ("bin", "add", ("var", vs[0]), ("var", rng.choice(["A", "B", "AB"])))), c))
         init = {v: rng.randint(0, 3) for v in vs if rng.random() < 0.6}
         cases.append((c, init))
     import time
@@ -1731,7 +1731,7 @@ def vcgnat_stage(ctx):
         vs = [v for v in vs if v.isalpha() and v.islower()] or ["a", "b"]
         # straight-line / conditional code over small constants; the postcondition is a guess about the final
         # values that is right or wrong for the program text -- only provable guesses are judged
-        c = gen_nat_com(rng, rng.randint(1, 3), vs, False)
+        c = to_printable_shape(gen_nat_com(rng, rng.randint(1, 3), vs, False))
         if has_loop(c):
             c = ("seq", ("assign", vs[0], I(rng.randint(0, 2))), ("assign", vs[-1], B("add", V(vs[0]), I(1))))
         pre = TRUE if rng.random() < 0.6 else B("eq", V(rng.choice(vs)), I(rng.randint(0, 2)))
